@@ -1,15 +1,17 @@
-"""C06 id generators: IdGen.tla model-checked on a scaled layout (algorithm => contract for every
-clock history, sequential and with overlapping callers; four named deviations each violate the
-contract), plans replayed on real goroutines against snowflake.HardNode with the clock hook as a
-rendez-vous, seeded clock walks / bursts / restarts / free-running goroutines on HardNode, MonoNode and
-the nano generators; every returned id validated by IdGen_Trace (contract layer only)."""
+"""C06 id generators: IdGen.tla model-checked on a scaled layout (algorithm => contract for every clock
+history, sequential and with overlapping callers; five named deviations - >= for >, no carry, restart
+seeding only the time, nano >=, no mutex - each violate the contract), plans replayed on real goroutines
+against snowflake.HardNode with the clock hook as a rendez-vous, seeded clock walks / bursts / restarts /
+free-running goroutines on HardNode, MonoNode and the nano generators; every returned id validated by
+IdGen_Trace (contract layer only)."""
 
 
 def run(ctx):
     fam = "idgen"
     ctx.tlc_mc(fam, "IdGen", "IdGen_MC.cfg", workers=4, coverage=ctx.thorough, label="sequential, all layouts")
     ctx.tlc_mc(fam, "IdGen", "IdGen_MC_conc.cfg", workers=4, label="two overlapping callers")
-    for dev in ("ge", "nocarry", "seedtime", "nanoge"):
+    devs = ("nocarry", "nomutex", "ge", "seedtime", "nanoge")
+    for dev in (devs if ctx.thorough else devs[:3]):
         ctx.tlc_mc(fam, "IdGen", "IdGen_MC_bug_%s.cfg" % dev, workers=1, expect_violation="Contract",
                    label="witness: deviation %s" % dev)
     if ctx.thorough:
